@@ -352,6 +352,9 @@ func (r *replica) buildTx(h *history, op []int64) (pb.Transaction, string) {
 			return hx.BvmTx(k, n, constant.AppchainMgrContractAddr.Address(), "FreezeAppchain", pb.String(chainName(c)), pb.String("r")), "proposal"
 		case 9:
 			return hx.BvmTx(k, n, constant.AppchainMgrContractAddr.Address(), "ActivateAppchain", pb.String(chainName(c)), pb.String("r")), "proposal"
+		case 11: // UpdateAppchain by its admin with two illegal new admin addresses
+			return hx.BvmTx(k, n, constant.AppchainMgrContractAddr.Address(), "UpdateAppchain", pb.String(chainName(c)), pb.String("name-"+chainName(c)),
+				pb.String("desc"), pb.Bytes(nil), pb.String(hx.Addr(k).String()+",zz-bad-admin-a,zz-bad-admin-b"), pb.String("r")), "proposal"
 		default: // vote reject
 			pid := "no-such-proposal"
 			if int(extra) < len(r.proposals) {
@@ -362,6 +365,21 @@ func (r *replica) buildTx(h *history, op []int64) (pb.Transaction, string) {
 	case 5: // [5, user]: BVM InitServiceCache on the registered interchain contract object
 		k := acctKey(op[1])
 		return hx.BvmTx(k, r.nextNonce(k), constant.InterchainContractAddr.Address(), "InitServiceCache"), ""
+	case 7: // [7, user, contract, variant]: a method PROMOTED from the embedded bitxhub-core manager, called as a transaction
+		k := acctKey(op[1])
+		addr := constant.ServiceMgrContractAddr.Address()
+		switch op[2] {
+		case 0:
+			addr = constant.AppchainMgrContractAddr.Address()
+		case 2:
+			addr = constant.RuleManagerContractAddr.Address()
+		case 3:
+			addr = constant.NodeManagerContractAddr.Address()
+		}
+		if len(op) > 3 && op[3] == 1 {
+			return hx.BvmTx(k, r.nextNonce(k), addr, "QueryById", pb.String("chain0:svc0"), pb.Bytes(nil)), ""
+		}
+		return hx.BvmTx(k, r.nextNonce(k), addr, "CountAll", pb.Bytes(nil)), ""
 	case 6: // [6, user, sc, ss, dc, ds, idx, typ, timeout, gid]: plain BVM HandleIBTPData(bytes), no proof
 		k := acctKey(op[1])
 		ib := ibtpOf(h, op)
@@ -451,6 +469,12 @@ func retClass(status pb.Receipt_Status, ret string) string {
 			return ret
 		}
 		return "ok"
+	}
+	switch {
+	case strings.Contains(ret, "nil pointer dereference"):
+		return "nilptr"
+	case strings.Contains(ret, "interface conversion"):
+		return "ifaceconv"
 	}
 	return hx.ErrClass(ret)
 }
